@@ -267,6 +267,12 @@ def model_side_tie(ctx, model_side, stats):
                    "the model repairs)", ok_eval and not unexplained)
     ctx.obligation(f"C02_translate_wf_full observed: wf_graphb && no_input_returned = true of the model's graph for every one of the {len(cases)} functions "
                    "the model accepts (nested if / for / while included)", ok_eval and not notwf)
+    ctx.cover(translate_wf_theorem_class=dict(
+        theorem="C02_translate_wf_all (every program the converter model accepts; no syntactic class)",
+        generated_functions=len(cases), accepted_by_the_real_converter=sum(1 for m in meta if m[2]),
+        inside_the_proved_class=sum(1 for j, m in enumerate(meta) if m[2] and j not in set(unexplained)),
+        note="a function is inside the class when the real converter accepts it and Script/Translate.v produces the same graph "
+             "(names included); refused programs are outside (nothing is emitted)"))
     ctx.cover(model_side_functions=len(cases), model_side_straightline_accepted=n_straight, model_differs_explained_by_known_defects=len(differ) - len(unexplained),
               model_differs_unexplained=len(unexplained), model_graph_not_wf=len(notwf))
 
